@@ -168,6 +168,20 @@ def _bit_or(p: Path, a: Any, b: Any) -> Any:
         return b
     if isinstance(b, int) and not isinstance(b, bool) and b == 0:
         return a
+    # x | c for a constant c >= 0:  x + c - (x & c)   (exact for all integers)
+    for x, c in ((a, b), (b, a)):
+        if isinstance(c, int) and not isinstance(c, bool) and c > 0 and not isinstance(x, int):
+            return mk_int(int_term(x) + c - int_term(_and_const(int_term(x), c)))
+    # x | (y << s) where y fits w bits and the field [s, s+w) of x is zero:  x + (y << s)
+    for x, y in ((a, b), (b, a)):
+        sft = tz_of(y)
+        if 0 < sft < 64 and not isinstance(x, int):
+            tx, ty = int_term(x), int_term(y)
+            for w in (1, 2, 4, 8, 16, 32):
+                if p.entails(z3.And(ty >= 0, ty < (1 << (sft + w)))):
+                    if p.entails(((tx / (1 << sft)) % (1 << w)) == 0):
+                        return mk_int(tx + ty)
+                    break
     for x, tx, y, ty in ((a, ta, b, tb), (b, tb, a, ta)):
         c = tz_of(x)
         if 0 < c < (1 << 29):
